@@ -146,7 +146,7 @@ const OTHER_RULES: [&str; 8] = [
 // container serialized in hash order would have >= 24 possible orders.
 // ------------------------------------------------------------------------------------------------
 
-const WIDE: [&[&str]; 15] = [
+const WIDE: [&[&str]; 20] = [
     // 4 fusable rules in one token bucket of `filters`
     &["wide/aa", "wide/bb", "wide/cc", "wide/dd"],
     // one bucket, two fusion groups (the optimizer groups them in a hash map)
@@ -178,6 +178,13 @@ const WIDE: [&[&str]; 15] = [
     // 4 rules under one host key
     &["h1.com##.a", "h1.com##.b", "h1.com##.c", "h1.com##.d"],
     // 4 domain hashes per option list
+    // repeated rules and rules that contribute the same generic selector twice: a bucket that holds
+    // a repetition next to other entries
+    &["##.cx > b", "##.cx > c", "##.cx > b", "##.cx > d"],
+    &["###ix > b", "###ix > c", "###ix > b", "###ix d"],
+    &["~a.com##.cx > e", "~b.com##.cx > e", "##.cx > f", "##.cx > g"],
+    &["dup/one", "dup/two", "dup/one", "@@dup/one"],
+    &["a.com##.s", "a.com##.t", "a.com##.s", "a.com#@#.t"],
     &["*$script,domain=s1.com|s2.com", "*$image,domain=s1.com", "*$stylesheet,domain=s1.com|s2.com|s3.com", "*$font,domain=s1.com"],
     &["*$xhr,domain=s1.com|s2.com", "*$media,domain=s2.com", "*$other,domain=s2.com|s3.com", "*$ping,domain=s2.com"],
     &["wide$domain=d1.com|d2.com|d3.com|d4.com", "wide$domain=~d1.com|~d2.com|~d3.com|~d4.com", "wide$domain=d4.com|d3.com|d2.com|d1.com|~x.d1.com", "*$domain=d1.com|d2.com|d3.com|d4.com"],
@@ -726,6 +733,10 @@ fn self_check(wide: &[Vec<&'static str>]) -> Result<(), String> {
     }
     // the wide list must really be wide: its buffer differs when any single rule is left out
     for skip in 0..all.len() {
+        // (a deliberately repeated rule may be de-duplicated by the engine)
+        if all.iter().filter(|x| x.0 == all[skip].0).count() > 1 {
+            continue;
+        }
         let mut fewer = all.clone();
         fewer.remove(skip);
         if build_and_serialize(&fewer, CFGS[1])?[0] == *buf {
